@@ -288,8 +288,11 @@ def _k3(res, tier, shard):
             if e_.fork_bool(z3.Bool(f'hook_raises_{k}')):
                 er = EnumV('LyError', _le.vindex['Err'], {'Err': {0: Cell(Opaque('Instance', 'error'))}}, None, _le)
                 return EnumV('Result<Value, LyError>', 1, {'Err': {0: Cell(er)}}, None, _RES)
-            oid = z3.BitVec(e_.fresh_name('callback_object'), 64)
-            v = EnumV(VALUE, _vd.vindex['Obj'], {'Obj': {0: Cell(AbsObj(oid, 'ObjectRef'))}}, None, _vd) if 'Obj' in _vd.vindex else e_.fresh(VALUE, e_.fresh_name('hook_value'))
+            if 'Obj' in _vd.vindex and e_.fork_bool(z3.Bool(f'callback_returns_a_fresh_object_{k}')):
+                oid = z3.BitVec(e_.fresh_name('callback_object'), 64)
+                v = EnumV(VALUE, _vd.vindex['Obj'], {'Obj': {0: Cell(AbsObj(oid, 'ObjectRef'))}}, None, _vd)
+            else:
+                v = e_.fresh(VALUE, e_.fresh_name('hook_value'))
             return EnumV('Result<Value, LyError>', 0, {'Ok': {0: Cell(v)}}, None, _RES)
         e.model(r'^(laythe_core::)?(hooks::)?(Hooks|ValueHooks)::(call|call_method)$', callback_result)
 
